@@ -391,7 +391,9 @@ Proof.
     cbn [map_opt]. rewrite !py_int_show_dec. cbn [obind]. rewrite !pack4 by assumption.
     cbn [obind concat]. rewrite !app_nil_r.
     unfold packn, len. rewrite !app_length, !length_be.
-    change (pack 1 (Z.of_N (N.of_nat (4 + (4 + 4))))) with (Some [12]).
+    change (N.of_nat (4 + (4 + 4))) with 12.
+    change ((12 =? 0) || negb (12 mod 12 =? 0)) with false. cbv iota.
+    change (pack 1 (Z.of_N 12)) with (Some [12]).
     reflexivity.
 Qed.
 
